@@ -720,6 +720,11 @@ def triage(binary, prop, st, fl):
                 tail = open(os.path.join(os.path.dirname(path), wid + ".stderr"), errors="replace").read()[-1500:].replace("\n", " | ")
             except OSError:
                 pass
+            if "failed to allocate" in tail or "out of memory" in tail or "allocator is out of memory" in tail:
+                # the sanitizer runtime could not get memory from the machine (campaigns running side by side): the
+                # worker was restarted, the case passes in isolation - a resource limit of the run, no verdict
+                print("NOTE worker ended by the sanitizer runtime for lack of memory (resource limit), case passes in isolation: %s" % path)
+                return None
             return ("flaky", "worker died (rc=%s) but the breadcrumb case %s passes in isolation; worker stderr: %s" % (fl.get("rc"), path, tail))
         sig = results[0]["sig"]
         # crashes belong to C07 and to the property that owns the operation in flight
